@@ -73,6 +73,7 @@ def _ios_init(eng, st, ios):
     eng.mem_write(st, ios + 8, int_cells(6, 8))
     eng.mem_write(st, ios + IOS_FLAGS, int_cells(0x1002, 4))
     eng.mem_write(st, ios + IOS_FILL, [32, 1])
+    eng.mem_write(st, ios + 240, int_cells(eng.irm.gaddr['model_ctype_object'], 8))      # _M_ctype (widen() / fill())
 
 
 def _buf(st, os_):
